@@ -2,12 +2,13 @@
    The schedule theorem is parser independent (first theorem); per parser it needs the one-step
    property ExtOK, proved here for: SkipQuoted, ParseCallIDVal, ParseUIntVal / ParseExpiresVal,
    ParseCLenVal, ParseCSeqVal, ParseNameAddrPVal for every header kind (= ParseFromVal,
-   ParseOneContact), ParseOnePAI, ParseAllContactValues, ParseAllPAIValues, ParseFLine, ParseTokenParam for
+   ParseOneContact), ParseOnePAI, ParseAllContactValues, ParseAllPAIValues, ParseFLine, ParseHdrLine (any header, with all eight
+   header specific value parsers under it), ParseTokenParam for
    every flag set without POptInputEndF (with that flag every prefix is by definition the whole
    input).  For each: every buffer, start offset, object state (so also resumed states) and chunk
-   schedule.  PARTIAL: not yet discharged for ParseHdrLine, ParseHeaders,
+   schedule.  PARTIAL: not yet discharged for ParseHeaders,
    ParseAllURIParams, ParseAllURIHdrs (correspondence run + resume oracle only). *)
-From Sipsp Require Import Harness Resume Ext ExtLeaf ExtCSeq ExtTok ExtNameAddr ExtNested ExtLists ExtFLine.
+From Sipsp Require Import Harness Resume Ext ExtLeaf ExtCSeq ExtTok ExtNameAddr ExtNested ExtLists ExtFLine ExtHdrLine.
 Theorem C02_every_schedule_from_one_step :
   forall (S : Type) (P : list byte -> N -> S -> res S) (obs : S -> list Z) (Inv : N -> S -> Prop),
   ExtOK P obs Inv ->
@@ -58,3 +59,7 @@ Proof. exact (fun flags Hie b k s0 cuts => resume_schedule _ _ _ (tokparam_ExtOK
 Theorem C02_first_line : forall b k s0 cuts, k <= nnat (length b) -> sorted_from (N.to_nat k) cuts ->
   agrees parse_fline obs_fline b cuts (chunked_trace parse_fline b cuts k s0) k s0.
 Proof. exact (fun b k s0 cuts => resume_schedule _ _ _ fline_ExtOK b k s0 cuts I). Qed.
+
+Theorem C02_header_line : forall b k s0 cuts, k <= nnat (length b) -> sorted_from (N.to_nat k) cuts ->
+  agrees parse_hdrline (fun x => obs_hdr (hx_h x) ++ obs_opt_phvals (hx_pv x)) b cuts (chunked_trace parse_hdrline b cuts k s0) k s0.
+Proof. exact (fun b k s0 cuts => resume_schedule _ _ _ hdrline_ExtOK b k s0 cuts I). Qed.
